@@ -141,6 +141,14 @@ def catalogue(tier, rng):
             for how in ("fin", "rst"):
                 st = "accepted" if name in ("connect", "connect_v2") else STAGES[1 + (off + len(name)) % 4]
                 add("cut_at_offset", st, [(data[:off], 1 if off == len(data) else 0)], close=how, note=f"{name} cut after {off}/{len(data)} bytes, {how}")
+    # (v'') a complete, valid handshake immediately followed by close / reset (the answer can no longer be delivered)
+    for how in ("fin", "rst"):
+        for mid in (30, 0):
+            add("hello_then_close", "accepted", [(fr(W.MT_CONNECT, W.p_connect(0, 0), src_mod=mid), 1)], close=how, note=f"CONNECT (id {mid}) then {how}")
+            add("hello_then_close", "accepted", [(fr(W.MT_CONNECT_V2, W.p_connect_v2(0, 0, 0, mid, 77, b"late"), src_mod=mid), 1),
+                                                 (fr(W.MT_CONNECT, W.p_connect(0, 0), src_mod=mid), 1)], close=how, note=f"CONNECT_V2+CONNECT (id {mid}) then {how}")
+            add("hello_then_close", "accepted", [(fr(W.MT_CONNECT_V2, W.p_connect_v2(1, 0, 0, mid, 77, b"latelog"), src_mod=mid), 1)], close=how,
+                note=f"CONNECT_V2 as logger (id {mid}) then {how}")
     # (v') a subscriber that died silently (reset) is first discovered by a *periodic* manager message
     for st in ("subscribed", "suball", "logger"):
         for adv in (0.95, 1.1, 5.5):
@@ -185,7 +193,10 @@ def gen_cases(tier, seed):
     cases = []
     for i, f in enumerate(cat):
         whole = all(n >= 1 for _, n in f["raws"]) and f["kind"] != "garbage"
-        cases.append({"mode": "single", "fault": f, "tc": i % 9 == 8 and whole, "loud": i % 11 == 10})
+        cases.append({"mode": "single", "fault": f, "tc": i % 9 == 8 and whole, "loud": i % 11 == 10, "offender_first": i % 4 == 1})
+        if f["stage"] == "accepted" and (tier == "thorough" or i % 3 == 0 or (whole and f["close"])):
+            # the same fault from a peer that already receives everything, the manager publishing its own log messages
+            cases.append({"mode": "single", "fault": dict(f, stage="presub_all"), "tc": False, "loud": True, "offender_first": i % 2 == 0 or f["kind"] == "hello_then_close"})
     # (vi) pairs x permutations
     pairs = [(a, b) for a in SIMPLE for b in SIMPLE]
     rng.shuffle(pairs)
@@ -224,6 +235,9 @@ def stage_steps(L, stage, mod_id):
     st = [["open", L]]
     if stage == "accepted":
         return st + [["drain"]]
+    if stage == "presub_all":
+        # subscribed to everything (also to the manager's own log messages) before any CONNECT
+        return st + [["drain"], ["sub", L, ALL], ["drain"]]
     st.append(["hello", L, {"mod_id": mod_id, "logger": int(stage == "logger")}])
     st.append(["drain"])
     if stage == "subscribed":
@@ -305,6 +319,10 @@ def run_case(case, tier):
                 # one harmless control frame makes the round non-idle; the dead subscriber is then first touched by
                 # whichever periodic message is due
                 steps += [["sub", "BP", 556], ["round", {"only": ["BP"], "adv": f["timer_adv"]}], ["round", {"only": [], "adv": 0.001}]]
+            if case.get("offender_first"):
+                # the offender's queued frames are read before anybody publishes (otherwise a publication usually
+                # discovers the dead connection on the write side and its last frames are never looked at)
+                steps.append(["round", {"only": ["O"], "adv": 0.001}])
             steps += [["pub", "BP", T, 0, 0, 8], ["drain", {"adv": 0.001}]]
         else:
             labels = ["BP"]
